@@ -675,6 +675,10 @@ class TermBuilder:
             inner = self._ceil_patterns(a) if fn == "int" else None
             if inner is not None:
                 return inner
+            if fn == "int" and isinstance(a, ast.Call) and dotted(a.func) in ("np.max", "np.amax") and len(a.args) == 1:
+                inner = self._ceil_patterns(a.args[0])
+                if inner is not None:
+                    return fapp("amax", inner)
             return self.term(a)
         if fn in ("max", "min", "np.maximum", "np.minimum"):
             items = None
@@ -694,6 +698,10 @@ class TermBuilder:
             return self.binop(ast.BinOp(left=args[0], op=ast.Pow(), right=args[1]))
         if fn in ("abs", "np.abs") and len(args) == 1:
             return fapp("abs", self.term(args[0]))
+        if fn in ("np.max", "np.amax") and len(args) == 1:
+            return fapp("amax", self.term(args[0]))
+        if fn in ("np.min", "np.amin") and len(args) == 1:
+            return fapp("amin", self.term(args[0]))
         # method-style astype(int) etc
         if isinstance(e.func, ast.Attribute) and e.func.attr in ("astype",) and dotted(e.func.value) is None:
             return self.term(e.func.value)
